@@ -1,0 +1,76 @@
+// Copyright 2023 StreamNative, Inc.
+//
+// Licensed under the Apache License, Version 2.0 (the "License");
+// you may not use this file except in compliance with the License.
+// You may obtain a copy of the License at
+//
+//     http://www.apache.org/licenses/LICENSE-2.0
+//
+// Unless required by applicable law or agreed to in writing, software
+// distributed under the License is distributed on an "AS IS" BASIS,
+// WITHOUT WARRANTIES OR CONDITIONS OF ANY KIND, either express or implied.
+// See the License for the specific language governing permissions and
+// limitations under the License.
+
+package kv
+
+import (
+	"context"
+	"fmt"
+	"testing"
+	"time"
+
+	"github.com/stretchr/testify/assert"
+
+	"github.com/oxia-db/oxia/common/constant"
+	time2 "github.com/oxia-db/oxia/common/time"
+	"github.com/oxia-db/oxia/proto"
+)
+
+func TestDB_DeleteRangeLeavesInternalKeysAlone(t *testing.T) {
+	for _, extraKeys := range []int{0, DeleteRangeThreshold + 1} {
+		factory, err := NewPebbleKVFactory(testKVOptions)
+		assert.NoError(t, err)
+		db, err := NewDB(constant.DefaultNamespace, 1, factory, 1*time.Hour, time2.SystemClock)
+		assert.NoError(t, err)
+
+		puts := []*proto.PutRequest{
+			{Key: "a", Value: []byte("0")},
+			{Key: "a/b", Value: []byte("0")},
+			{Key: "a/z", Value: []byte("0")},
+		}
+		for i := 0; i < extraKeys; i++ {
+			puts = append(puts, &proto.PutRequest{Key: fmt.Sprintf("a/b-%d", i), Value: []byte("0")})
+		}
+		_, err = db.ProcessWrite(&proto.WriteRequest{Puts: puts}, 0, 1, NoOpCallback)
+		assert.NoError(t, err)
+
+		// In the hierarchical order of the keys, the internal keys (commit offset, notifications, ...)
+		// sort between "a" and "a/z"
+		res, err := db.ProcessWrite(&proto.WriteRequest{DeleteRanges: []*proto.DeleteRangeRequest{
+			{StartInclusive: "a", EndExclusive: "a/z"},
+		}}, 1, 2, NoOpCallback)
+		assert.NoError(t, err)
+		assert.Equal(t, proto.Status_OK, res.DeleteRanges[0].Status)
+
+		for _, key := range []string{"a", "a/b", "a/b-0"} {
+			gr, err := db.Get(&proto.GetRequest{Key: key})
+			assert.NoError(t, err)
+			assert.Equal(t, proto.Status_KEY_NOT_FOUND, gr.Status)
+		}
+		gr, err := db.Get(&proto.GetRequest{Key: "a/z"})
+		assert.NoError(t, err)
+		assert.Equal(t, proto.Status_OK, gr.Status)
+
+		nb, err := db.ReadNextNotifications(context.Background(), 0)
+		assert.NoError(t, err)
+		assert.Equal(t, 2, len(nb))
+
+		commitOffset, err := db.ReadCommitOffset()
+		assert.NoError(t, err)
+		assert.EqualValues(t, 1, commitOffset)
+
+		assert.NoError(t, db.Close())
+		assert.NoError(t, factory.Close())
+	}
+}
